@@ -309,38 +309,61 @@ def run(pid, tier, seed, args, sw):
     cov = cov_mod.Coverage(pid)
     cov.start()
     impl = {}
+    harness_errors = []
     for s in scns:
         try:
             impl[s.name] = prop.run_impl(s)
-        except Exception as e:  # the harness itself failed: infrastructure, not a verdict
-            raise Infra("harness failure on %s: %s\n%s" % (s.name, e, traceback.format_exc()))
+        except Exception as e:
+            # the implementation side could not even be observed on this scenario (on the unchanged tree this never
+            # happens; a changed library can break the reflection): it counts as a divergence from the model
+            impl[s.name] = ["<harness-exception %s: %s>" % (type(e).__name__, str(e)[:120])]
+            harness_errors.append((s.name, traceback.format_exc()))
     cov.stop()
-    model = common.run_model(scns)
+    # scenarios flagged impl_only lie outside the model's domain (e.g. a leaf whose update() returns INVALID): they are
+    # run on the implementation under the Python oracle only and never decide the correspondence
+    model = common.run_model([s for s in scns if not s.meta.get("impl_only")])
 
     # -- 4. correspondence + oracles -----------------------------------------------------------
     known = [k for k in load_known() if k.get("property") == pid and k.get("status", "open") == "open"]
     divergences, violations, known_hits = [], [], {}
     nontrivial = set()
     stats = {}
+    impl_only = 0
     for s in scns:
         io, mo = impl[s.name], model.get(s.name, ["<no model output>"])
+        if s.meta.get("impl_only"):
+            mo = io
+            impl_only += 1
         pi, pm = prop.project(s, io), prop.project(s, mo)
         if pi != pm:
             first = next((j for j, (a, b) in enumerate(zip(pi, pm)) if a != b), min(len(pi), len(pm)))
             divergences.append({"scenario": s.to_json(), "first_difference": {
                 "index": first, "impl": pi[first] if first < len(pi) else None,
                 "model": pm[first] if first < len(pm) else None}})
-        for v in prop.oracle(s, io):
+        try:
+            vs = prop.oracle(s, io)
+        except Exception:
+            if pi == pm:      # model and code agree on this scenario, so the oracle itself is broken: infrastructure
+                raise Infra("oracle failure on %s:\n%s" % (s.name, traceback.format_exc()))
+            vs = []           # diverging observation the oracle cannot read: the divergence is what is reported
+        skip = s.meta.get("skip_clauses") or ()
+        for v in vs:
+            if v.get("clause") in skip:
+                continue
             kf = next((k for k in known if props.matches_known(k, v)), None)
             if kf is not None:
                 known_hits.setdefault(kf["id"], []).append(v)
             else:
                 v["scenario"] = s.to_json()
                 violations.append(v)
-        key = prop.nontrivial_key(s, io)
-        if key is not None:
-            nontrivial.add(key)
-        prop.count(s, io, stats)
+        try:
+            key = prop.nontrivial_key(s, io)
+            if key is not None:
+                nontrivial.add(key)
+            prop.count(s, io, stats)
+        except Exception:
+            if pi == pm:
+                raise Infra("statistics failure on %s:\n%s" % (s.name, traceback.format_exc()))
 
     # -- failing-input search when correspondence / proofs are broken but no oracle failed --------
     searched = 0
@@ -353,7 +376,11 @@ def run(pid, tier, seed, args, sw):
                 io = prop.run_impl(s)
             except Exception:
                 continue
-            for v in prop.oracle(s, io):
+            try:
+                vs2 = prop.oracle(s, io)
+            except Exception:
+                continue
+            for v in vs2:
                 if not any(props.matches_known(k, v) for k in known):
                     v["scenario"] = s.to_json()
                     violations.append(v)
@@ -405,7 +432,8 @@ def run(pid, tier, seed, args, sw):
                              "theorem)", "correspondence harness /verif/harness (differential run of the model's "
                              "executable definitions against $VERIF_REPO)", "CPython 3.12"],
             "theorems": {n: axioms.get(n) for n in names},
-            "traces_validated_against_impl": len(scns) - len(divergences),
+            "traces_validated_against_impl": len(scns) - len(divergences) - impl_only,
+            "impl_only_scenarios": impl_only,
             "evaluations": len(scns), "operations": ops,
             "distinct_nontrivial": len(nontrivial),
             "rule": prop.rule,
